@@ -39,10 +39,6 @@ theorem namesOnly_map_name (ns : List Str) : namesOnly (ns.map Filter.name) = tr
 
 /-! ### `dedupSubjects` -/
 
-theorem mem_dedupSubjects (S : List Filter) (f : Filter) :
-    f ∈ dedupSubjects S ↔ f ∈ S ∧ ∀ o ∈ S, isStrictSub o.id f.id = false := by
-  simp [dedupSubjects, List.mem_filter]
-
 theorem dedupSubjects_subset (S : List Filter) : ∀ f ∈ dedupSubjects S, f ∈ S :=
   fun f hf => ((mem_dedupSubjects S f).1 hf).1
 
@@ -452,30 +448,158 @@ theorem hierClosed_of_graphOf {a : Arch} {g : PGraph Str} (hw : ArchWF a) (hg : 
 abbrev anythingRule (dir : Bool) (S : List Filter) : RuleState :=
   { cfg := { subjects := some S, shouldNot := true, importDir := some dir, anything := true }, next := some false }
 
-/-- what `_convert_aliases` does, for every subject list -/
-theorem anything_alias_dedup (mt : Str → Str → Bool) (g : PGraph Str) (S : List Filter) (dir : Bool) :
-    assertApplies mt (anythingRule dir S) g =
-      assertApplies mt (mkRule false false true dir true (dedupSubjects S) (dedupSubjects S)) g := by
-  simp [assertApplies, anythingMisused, convertAliases, mkRule]
+/-- what `_convert_aliases` rewrites the alias to: the `except` rule on the de-duplicated subjects, which remembers the
+    subjects it removed -/
+abbrev dedupRule (dir : Bool) (S : List Filter) : RuleState :=
+  { cfg := { subjects := some (dedupSubjects S), objects := some (dedupSubjects S), shouldNot := true,
+             exceptPresent := true, importDir := some dir, dropped := droppedSubjects S }, next := some false }
 
-theorem alias_anything_verdict_lemma (mt : Str → Str → Bool) (g : PGraph Str) (hc : HierClosed g) (S : List Filter)
+/-- `Rule.assert_applies` on the alias, for every subject list (outcome and rule object afterwards) -/
+theorem anything_alias_eq (mt : Str → Str → Bool) (g : PGraph Str) (S : List Filter) (dir : Bool) :
+    assertApplies mt (anythingRule dir S) g = assertApplies mt (dedupRule dir S) g := by
+  simp [assertApplies, anythingMisused, convertAliases]
+
+theorem droppedSubjects_nil : droppedSubjects [] = [] := rfl
+
+/-- the outcome of the alias: the existence check on the removed subjects (repair of F-C13b), then the `except` rule on
+    the de-duplicated subjects -/
+theorem anything_alias_verdict (mt : Str → Str → Bool) (g : PGraph Str) (S : List Filter) (dir : Bool) :
+    (assertApplies mt (anythingRule dir S) g).2 =
+      if droppedAbsentIn g S = true then .err .lookupError
+      else (assertApplies mt (mkRule false false true dir true (dedupSubjects S) (dedupSubjects S)) g).2 := by
+  by_cases hS : S = []
+  · subst hS; rfl
+  have hne := dedupSubjects_ne_nil S hS
+  have he : (dedupSubjects S).isEmpty = false := by
+    cases h : dedupSubjects S with | nil => exact absurd h hne | cons _ _ => rfl
+  rw [assertApplies_mkRule]
+  unfold assertApplies
+  simp only [anythingMisused, convertAliases, configMissing, droppedAbsent, droppedAbsentIn, RuleConfig.behavior,
+    Option.map_some, he, Bool.not_true, Bool.and_false, Bool.false_eq_true, if_false, Bool.or_true,
+    Option.isNone_some, Bool.or_self]
+  split
+  · rfl
+  · split <;> rfl
+
+/-- the alias when none of the removed subjects is absent: the verdict of the `except` rule on the de-duplicated subjects -/
+theorem anything_alias_dedup (mt : Str → Str → Bool) (g : PGraph Str) (S : List Filter) (dir : Bool)
+    (hd : droppedAbsentIn g S = false) :
+    (assertApplies mt (anythingRule dir S) g).2 =
+      (assertApplies mt (mkRule false false true dir true (dedupSubjects S) (dedupSubjects S)) g).2 := by
+  rw [anything_alias_verdict, hd]; rfl
+
+theorem anything_alias_dedup_of_nodes (mt : Str → Str → Bool) (g : PGraph Str) (S : List Filter) (dir : Bool)
+    (hn : ∀ f ∈ S, f.isRegex = false → g.hasNode f.id = true) :
+    (assertApplies mt (anythingRule dir S) g).2 =
+      (assertApplies mt (mkRule false false true dir true (dedupSubjects S) (dedupSubjects S)) g).2 :=
+  anything_alias_dedup mt g S dir (droppedAbsentIn_of_nodes g S hn)
+
+/-- nothing is removed: the alias IS the `except` rule (outcome and rule object afterwards) -/
+theorem anything_alias_of_dedup_eq (mt : Str → Str → Bool) (g : PGraph Str) (S : List Filter) (dir : Bool)
+    (hS : dedupSubjects S = S) :
+    assertApplies mt (anythingRule dir S) g = assertApplies mt (mkRule false false true dir true S S) g := by
+  simp [assertApplies, anythingMisused, convertAliases, mkRule, hS, droppedSubjects_of_dedup_eq S hS]
+
+/-- a missing (non-regex) subject makes the `except` rule raise a lookup error — name and parent filters alike -/
+theorem mkRule_lookup_error (mt : Str → Str → Bool) (g : PGraph Str) (dir : Bool) (S : List Filter)
+    (hS : ∀ f ∈ S, f.isRegex = false) (hmiss : ∃ f ∈ S, g.hasNode f.id = false) :
+    (assertApplies mt (mkRule false false true dir true S S) g).2 = .err .lookupError := by
+  obtain ⟨f, hf, hm⟩ := hmiss
+  have hne : S ≠ [] := List.ne_nil_of_mem hf
+  rw [assertApplies_mkRule]
+  have he : S.isEmpty = false := by cases S with | nil => exact absurd rfl hne | cons _ _ => rfl
+  have hb : (Behavior.mk false false true true).inconsistent = false := rfl
+  simp only [Bool.or_true, Bool.not_true, he, Bool.or_self, Bool.false_eq_true, if_false, hb]
+  unfold matchRule
+  rw [Hist.convertFilters_noregex mt g.nodes S hS]
+  simp only
+  rw [Hist.runQueries_missing g _ dir S S (.inr (.inr rfl)) hne hne ⟨f, List.mem_append_left _ hf, hm⟩]
+
+/-- **an unknown subject of an `anything` rule is a lookup error** — whether the de-duplication drops it (the new
+    check) or keeps it (the ordinary lookup of the queries). Name and parent filters, both directions, any graph. -/
+theorem anything_unknown_name_lemma (mt : Str → Str → Bool) (g : PGraph Str) (dir : Bool) (S : List Filter)
+    (hS : ∀ f ∈ S, f.isRegex = false) (hmiss : ∃ f ∈ S, g.hasNode f.id = false) :
+    (assertApplies mt (anythingRule dir S) g).2 = .err .lookupError := by
+  rw [anything_alias_verdict]
+  split
+  · rfl
+  · rename_i hd
+    rw [Bool.not_eq_true, droppedAbsentIn_false_iff] at hd
+    obtain ⟨f, hf, hm⟩ := hmiss
+    have hfd : f ∈ dedupSubjects S := by
+      apply Classical.byContradiction
+      intro hnot
+      rw [hd f hf hnot (hS f hf)] at hm; cases hm
+    exact mkRule_lookup_error mt g dir (dedupSubjects S) (fun x hx => hS x (dedupSubjects_subset S x hx)) ⟨f, hfd, hm⟩
+
+/-- the same for layer rules (`LayerRule.assert_applies` delegates to `Rule.assert_applies`): an `anything` layer rule
+    one of whose (non-regex) subject filters names a module that does not exist raises the lookup error -/
+theorem layer_anything_unknown_name_lemma (mt : Str → Str → Bool) (g : PGraph Str) (a : LArch) (dir : Bool)
+    (S : List Filter) (hS : ∀ f ∈ S, f.isRegex = false) (hmiss : ∃ f ∈ S, g.hasNode f.id = false) :
+    assertAppliesLayer mt ⟨some a, some (anythingRule dir S)⟩ g = .err .lookupError := by
+  obtain ⟨f, hf, hfm⟩ := hmiss
+  have hSne : S ≠ [] := List.ne_nil_of_mem hf
+  have hne := dedupSubjects_ne_nil S hSne
+  have he : (dedupSubjects S).isEmpty = false := by
+    cases h : dedupSubjects S with | nil => exact absurd h hne | cons _ _ => rfl
+  unfold assertAppliesLayer
+  simp only [anythingMisused, convertAliases, configMissing, droppedAbsent, RuleConfig.behavior,
+    Option.map_some, he, Bool.not_true, Bool.and_false, Bool.false_eq_true, if_false, Bool.or_true,
+    Option.isNone_some, Bool.or_self]
+  split
+  · rfl
+  · rename_i hd
+    have hd' : droppedAbsentIn g S = false := by
+      unfold droppedAbsentIn; simpa using hd
+    rw [droppedAbsentIn_false_iff] at hd'
+    have hfd : f ∈ dedupSubjects S := by
+      apply Classical.byContradiction
+      intro hnot
+      rw [hd' f hf hnot (hS f hf)] at hfm; cases hfm
+    have hS' : ∀ x ∈ dedupSubjects S, x.isRegex = false := fun x hx => hS x (dedupSubjects_subset S x hx)
+    have hb : (Behavior.mk false false true true).inconsistent = false := rfl
+    simp only [hb, Bool.false_eq_true, if_false]
+    unfold matchLayerRule
+    rw [Hist.convertFilters_noregex mt g.nodes _ hS']
+    simp only
+    rw [Hist.runQueries_missing g _ dir _ _ (.inr (.inr rfl)) hne hne ⟨f, List.mem_append_left _ hfd, hfm⟩]
+
+/-- the alias has the verdict class of `S should not … modules except S` when all names exist -/
+theorem alias_anything_verdict_of_nodes (mt : Str → Str → Bool) (g : PGraph Str) (hc : HierClosed g) (S : List Filter)
     (dir : Bool) (hS : namesOnly S = true) (hn : ∀ f ∈ S, g.hasNode f.id = true) :
     verdictOf mt g (anythingRule dir S) = verdictOf mt g (mkRule false false true dir true S S) := by
   unfold verdictOf
-  rw [anything_alias_dedup]
+  rw [anything_alias_dedup_of_nodes mt g S dir (fun f hf _ => hn f hf)]
   exact (anything_dedup_irrelevant mt g hc dir S hS hn).symm
+
+/-- … and for EVERY batch of names, existing or not (an absent name makes both sides raise a lookup error) -/
+theorem alias_anything_verdict_lemma (mt : Str → Str → Bool) (g : PGraph Str) (hc : HierClosed g) (S : List Filter)
+    (dir : Bool) (hS : namesOnly S = true) :
+    verdictOf mt g (anythingRule dir S) = verdictOf mt g (mkRule false false true dir true S S) := by
+  by_cases hn : ∀ f ∈ S, g.hasNode f.id = true
+  · exact alias_anything_verdict_of_nodes mt g hc S dir hS hn
+  · have hmiss : ∃ f ∈ S, g.hasNode f.id = false := by
+      apply Classical.byContradiction
+      intro hno
+      apply hn
+      intro f hf
+      cases h : g.hasNode f.id
+      · exact absurd ⟨f, hf, h⟩ hno
+      · rfl
+    rw [anything_lookup_error mt g dir S hS hmiss]
+    unfold verdictOf
+    rw [anything_unknown_name_lemma mt g dir S (namesOnly_noregex S hS) hmiss]
+    rfl
 
 theorem regex_expansion_anything_verdict_lemma (mt : Str → Str → Bool) (g : PGraph Str) (hnd : g.nodes.Nodup)
     (hc : HierClosed g) (dir : Bool) (p : Str) (hm : ∃ m ∈ g.nodes, mt p m = true) :
     verdictOf mt g (anythingRule dir [.regex p]) =
     verdictOf mt g (anythingRule dir ((g.nodes.filter (mt p)).map .name)) := by
-  have hn : ∀ f ∈ (g.nodes.filter (mt p)).map Filter.name, g.hasNode f.id = true := by
-    intro f hf
-    obtain ⟨n, hn, rfl⟩ := List.mem_map.1 hf
-    exact (BuildGen.hasNode_iff g n).2 (List.mem_filter.1 hn).1
-  rw [alias_anything_verdict_lemma mt g hc _ dir (namesOnly_map_name _) hn]
+  rw [alias_anything_verdict_lemma mt g hc _ dir (namesOnly_map_name _)]
   unfold verdictOf
-  rw [anything_alias_dedup, dedupSubjects_single,
+  rw [anything_alias_dedup_of_nodes mt g [.regex p] dir (fun f hf hr => by
+        rw [List.mem_singleton.1 hf] at hr; cases hr),
+    dedupSubjects_single,
     regex_expansion_subject_lemma mt g hnd false false true dir true p _ hm,
     regex_expansion_object_lemma mt g hnd false false true dir true p _ hm]
 
